@@ -36,9 +36,43 @@ import (
 
 type Reader struct {
 	reader    io.Reader
+	source    normalizingReader
 	buffer    []byte
 	bytesRead uint64
 	config    *configuration.Configuration
+}
+
+// normalizingReader adapts any io.Reader to the subset of the io.Reader
+// contract that the decoding code relies upon: Read never returns (0, nil)
+// for a non-empty buffer, and never returns data together with an error (the
+// error is held back until the next call).
+type normalizingReader struct {
+	reader io.Reader
+	err    error
+}
+
+const maxConsecutiveEmptyReads = 100
+
+func (_this *normalizingReader) Read(p []byte) (n int, err error) {
+	if _this.err != nil {
+		return 0, _this.err
+	}
+	if len(p) == 0 {
+		return 0, nil
+	}
+	for i := 0; i < maxConsecutiveEmptyReads; i++ {
+		n, err = _this.reader.Read(p)
+		if n > 0 {
+			_this.err = err
+			return n, nil
+		}
+		if err != nil {
+			_this.err = err
+			return 0, err
+		}
+	}
+	_this.err = io.ErrNoProgress
+	return 0, _this.err
 }
 
 func NewReader(config *configuration.Configuration) *Reader {
@@ -53,7 +87,8 @@ func (_this *Reader) Init(config *configuration.Configuration) {
 }
 
 func (_this *Reader) SetReader(reader io.Reader) {
-	_this.reader = reader
+	_this.source = normalizingReader{reader: reader}
+	_this.reader = &_this.source
 }
 
 func (_this *Reader) ReadUint8() uint8 {
